@@ -304,50 +304,64 @@ class C01(base.StoreSpec):
                 continue
             if not o.startswith("R"):
                 return ("violation", "query failed: " + o[:200])
-            qs = rp.schemas[ev[1]]
-            rows = [base.parse_row(t) for t in o.split()[1:]]
-            best = base.expected_groups(rp, ev)
-            seen = set()
-            for r in rows:
-                if r.key() in seen:
-                    return ("violation", "two points returned for series %d timestamp %d" % r.key())
-                seen.add(r.key())
-                e = best.get(r.key())
-                if e is None:
-                    return ("violation", "returned a point that was never written: " + r.tok()[:200])
-                if r.ver != e[0]:
-                    return ("violation", "series %d timestamp %d: returned version %d, written %d" % (r.sid, r.ts, r.ver, e[0]))
-                if tuple(r.vals) in e[1]:
+            rowp, batchp = base.split_paths(o)
+            for pi, o in enumerate([rowp] if batchp == rowp else [rowp, batchp]):      # row path Pull, columnar path PullBatch
+                r_ = self.check_path(rp, ev, o)
+                if r_ is None:
                     continue
-                # not bit-identical to any written row of that version: is every difference a known class?
-                verdict = None
-                for cand in e[1]:
-                    cls = set()
-                    for col, w, rv in zip(qs, cand, r.vals):
-                        if w == rv:
-                            continue
-                        k = classify_value(col, w, rv)
-                        cls.add(k)
-                    if None not in cls and cls:
-                        verdict = sorted(cls)[0]
-                        ex = [(col.tok(), w, rv) for col, w, rv in zip(qs, cand, r.vals) if w != rv][0]
-                        break
-                if verdict is None:
-                    cand = sorted(e[1])[0]
-                    diff = [(col.tok(), w[:60], rv[:60]) for col, w, rv in zip(qs, cand, r.vals) if w != rv][:3]
-                    return ("violation", "series %d timestamp %d: values not returned as written: %s" % (r.sid, r.ts, diff))
-                if verdict == "F10":
-                    known = ("known", "F10", "column %s written %s returned %s" % ex)
-                elif known is None:
-                    known = ("known", "F1z", "float field %s written %s returned %s (decimal float column codec drops the sign of zero)" % ex)
-            missing = [k for k in best if k not in seen]
-            if missing:
-                return ("violation", "written point missing from the result: series %d timestamp %d (%d missing)" % (
-                    missing[0][0], missing[0][1], len(missing)))
-            kf = base.order_key(ev[5], ev[2])
-            for a, b in zip(rows, rows[1:]):
-                if kf(a) >= kf(b):
-                    return ("violation", "result not in %s order" % ev[5])
+                if r_[0] == "violation":
+                    return ("violation", ("columnar read path (PullBatch; the row path Pull is right): " if pi else "") + r_[1])
+                if r_[1] == "F10" or known is None:
+                    known = r_
+        return known
+
+    def check_path(self, rp, ev, o):
+        """one query answer of one read path: None | violation | known"""
+        known = None
+        qs = rp.schemas[ev[1]]
+        rows = [base.parse_row(t) for t in o.split()[1:]]
+        best = base.expected_groups(rp, ev)
+        seen = set()
+        for r in rows:
+            if r.key() in seen:
+                return ("violation", "two points returned for series %d timestamp %d" % r.key())
+            seen.add(r.key())
+            e = best.get(r.key())
+            if e is None:
+                return ("violation", "returned a point that was never written: " + r.tok()[:200])
+            if r.ver != e[0]:
+                return ("violation", "series %d timestamp %d: returned version %d, written %d" % (r.sid, r.ts, r.ver, e[0]))
+            if tuple(r.vals) in e[1]:
+                continue
+            # not bit-identical to any written row of that version: is every difference a known class?
+            verdict = None
+            for cand in e[1]:
+                cls = set()
+                for col, w, rv in zip(qs, cand, r.vals):
+                    if w == rv:
+                        continue
+                    k = classify_value(col, w, rv)
+                    cls.add(k)
+                if None not in cls and cls:
+                    verdict = sorted(cls)[0]
+                    ex = [(col.tok(), w, rv) for col, w, rv in zip(qs, cand, r.vals) if w != rv][0]
+                    break
+            if verdict is None:
+                cand = sorted(e[1])[0]
+                diff = [(col.tok(), w[:60], rv[:60]) for col, w, rv in zip(qs, cand, r.vals) if w != rv][:3]
+                return ("violation", "series %d timestamp %d: values not returned as written: %s" % (r.sid, r.ts, diff))
+            if verdict == "F10":
+                known = ("known", "F10", "column %s written %s returned %s" % ex)
+            elif known is None:
+                known = ("known", "F1z", "float field %s written %s returned %s (decimal float column codec drops the sign of zero)" % ex)
+        missing = [k for k in best if k not in seen]
+        if missing:
+            return ("violation", "written point missing from the result: series %d timestamp %d (%d missing)" % (
+                missing[0][0], missing[0][1], len(missing)))
+        kf = base.order_key(ev[5], ev[2])
+        for a, b in zip(rows, rows[1:]):
+            if kf(a) >= kf(b):
+                return ("violation", "result not in %s order" % ev[5])
         return known
 
     def compare(self, line, g, l):
